@@ -43,7 +43,15 @@ func main() {
 	overlayF := flag.String("overlay", "", "JSON file: absolute path -> replacement content (probe tier)")
 	explain := flag.String("explain", "", "print a stored replay file")
 	list := flag.Bool("list", false, "list properties")
+	sweepF := flag.String("sweep", "", "file listing repo-relative .go files to mutate (generic mutation sweep)")
+	sweepOut := flag.String("out", "sweep.json", "sweep result file")
+	sweepPar := flag.Int("par", 6, "parallel probes in a sweep")
+	sweepOps := flag.String("ops", "", "restrict sweep to these operators (e.g. NEG,ROR)")
 	flag.Parse()
+	if *sweepF != "" {
+		runSweep(*repo, *verif, *sweepF, *sweepOut, *sweepPar, *sweepOps)
+		return
+	}
 
 	if *explain != "" {
 		b, err := os.ReadFile(*explain)
@@ -65,6 +73,10 @@ func main() {
 	}
 	if t := os.Getenv("PIKOCHECK_TAGS"); t != "" {
 		defaultTags = t
+	}
+	if *prop == "all" {
+		probeAll(*repo, *verif, *overlayF)
+		return
 	}
 	pd := props[*prop]
 	if pd == nil {
@@ -304,4 +316,52 @@ func runTaggedConfig(pd *propDef, repo string) map[string]any {
 		}
 	}
 	return map[string]any{"tags": "system", "error": "no probe output"}
+}
+
+// probeAll: one load, every property's rules; prints which properties report.
+func probeAll(repo, verif, overlayF string) {
+	overlay, err := readOverlay(overlayF)
+	if err != nil {
+		fmt.Println("overlay:", err)
+		os.Exit(2)
+	}
+	lo := loadOpts{dir: repo, overlay: overlay, tags: defaultTags}
+	p, err := loadProg(lo)
+	if err != nil || len(p.LoadErrs) > 0 || len(p.Pkgs) < 30 {
+		fmt.Println(`PROBEALL {"load_failed":true}`)
+		return
+	}
+	known, _ := loadKnown(filepath.Join(verif, "known_findings.json"))
+	by := map[string][]string{}
+	var ids []string
+	for id := range props {
+		ids = append(ids, id)
+	}
+	sort.Strings(ids)
+	for _, id := range ids {
+		pd := props[id]
+		c := newCtx(p, id)
+		func() {
+			defer func() {
+				if r := recover(); r != nil {
+					c.undecided(id+".engine", "panic", 0, fmt.Sprint(r))
+				}
+			}()
+			pd.run(c)
+		}()
+		c.applyFloors()
+		kf := map[string]bool{}
+		for _, k := range known {
+			if k.Property == id && k.Status == "finding" {
+				kf[k.Key] = true
+			}
+		}
+		for _, o := range c.Obs {
+			if o.Status != "discharged" && !kf[o.Key] {
+				by[id] = append(by[id], o.Key)
+			}
+		}
+	}
+	b, _ := json.Marshal(map[string]any{"load_failed": false, "by": by})
+	fmt.Println("PROBEALL " + string(b))
 }
